@@ -177,6 +177,18 @@ def check_fill(method, din, fin, dout, fout, offset=0, trace=None, skip=None):
         valid_b = valid_a | filled_first
         disp_b = np.where(filled_first, dout.astype(np.float64), disp_a)
         states_second.append(("flags after the first pass", valid_b.tolist(), disp_b.tolist()))
+        # a pixel flagged again after an earlier fill may still carry the "filled" bit of the first pass although
+        # this step resolved it in the SECOND pass (sgm: a mismatch next to an occlusion becomes an occlusion):
+        # when its output also carries the other "filled" bit, the pass that filled it cannot be told from the
+        # flags, and the reading in which it was still invalid during the second pass is accepted too
+        other_fill = FMIS if first_fill == FOCC else FOCC
+        unsure = filled_first & ((fout & other_fill) != 0)
+        if unsure.any():
+            sure = filled_first & ~unsure
+            valid_c = valid_a | sure
+            disp_c = np.where(sure, dout.astype(np.float64), disp_a)
+            states_second.append(("flags after the first pass, re-flagged pixels resolved in the second pass",
+                                  valid_c.tolist(), disp_c.tolist()))
     vals = disp_a[valid_a]
     vals = vals[np.isfinite(vals)]
     lo, hi = (float(vals.min()), float(vals.max())) if vals.size else (None, None)
